@@ -59,7 +59,7 @@ theorem pageOfTuples_eq (ts : List Tuple) : pageOfTuples ts =
 theorem pageOfTuples_WF (ts : List Tuple) (hwf : ∀ t ∈ ts, t.WF) (hfit : pageNeed ts ≤ 8192) : (pageOfTuples ts).WF := by
   rw [pageNeed_eq] at hfit
   rw [pageOfTuples_eq]
-  refine ⟨by simp, by simp, by simp, by simp, by simp, ?_, ?_, ?_⟩
+  refine ⟨by simp, by simp, by simp, by simp, by simp, ?_, ?_, ?_, normalSlots_nodup_of_range _ ts.length rfl⟩
   · intro l hl
     simp only [mem_map, mem_range] at hl
     obtain ⟨k, hk, rfl⟩ := hl
